@@ -141,6 +141,19 @@ static inline uint64_t splitmix64(uint64_t &s)
   return z ^ (z >> 31);
 }
 
+extern "C" int run_colvarscript_command(int objc, unsigned char *const objv[]);
+
+int colvarproxy_verif::run_force_callback()
+{
+  int rc = COLVARS_OK;
+  for (auto const &cmd : callback_cmds) {
+    std::vector<unsigned char *> argv;
+    for (auto const &a : cmd) argv.push_back((unsigned char *) a.c_str());
+    if (run_colvarscript_command((int) argv.size(), argv.data()) != COLVARS_OK) rc = COLVARS_ERROR;
+  }
+  return rc;
+}
+
 cvm::real colvarproxy_verif::rand_gaussian()
 {
   double u1 = ((splitmix64(rng_state) >> 11) + 1.0) / 9007199254740993.0;
@@ -228,6 +241,22 @@ int colvarproxy_verif::smp_biases_loop()
       (*(cv->biases_active()))[i]->update();
     }
     cur_thread = 0;
+  }
+  return cvm::get_error();
+}
+
+// biases and the scripted-force task as work items of one loop (`omp single nowait` + `omp for` in the library's own version)
+int colvarproxy_verif::smp_biases_script_loop()
+{
+  colvarmodule *cv = cvm::main();
+  if (real_threads && n_threads > 1) {
+    std::thread ts([&]() { tl_thread = n_threads - 1; cv->calc_scripted_forces(); tl_thread = -1; });
+    smp_biases_loop();
+    ts.join();
+  } else {
+    if (!script_last) { cur_thread = 0; cv->calc_scripted_forces(); }
+    smp_biases_loop();
+    if (script_last) { cur_thread = n_threads > 1 ? 1 : 0; cv->calc_scripted_forces(); cur_thread = 0; }
   }
   return cvm::get_error();
 }
